@@ -1,30 +1,22 @@
 (* C01 for MDCPDP -- mask-confined episodes yield feasible solutions. Statements only.
-   MDCPDP (F) is the model of MDCPDPEnv under the set F of repairs: [as_is] = the code as it is (what the
-   correspondence check compares with the running code), [repaired] = after the four proposed repairs
-   (Env/MDCPDP.v).  [md_good F i]: the depot count the code uses is the true one and its current depot follows the
-   vehicle -- true of [repaired] on every instance, of [as_is] exactly on single-depot instances. *)
+   MDCPDP A F is the model of MDCPDPEnv under the set F of repairs (Env/MDCPDP.v).  The running code is
+   [repaired]: the five defects found by this check were repaired in /repo on 2026-10-01 (commits 443a2ba, ca045f5,
+   ad2c92d, 4acebdc, 3428867; recorded as fixed in known_findings.json), and Harness/HMDCPDP.v compares the running
+   code with [repaired] on every run.  The theorems about [repaired] are THE theorems for the current code; the
+   [as_is] statements at the end are the record of the old behaviour (their witnesses are still replayed every run). *)
 From Coq Require Import ZArith List Bool.
 From RL4CO Require Import Base.Num Base.EnvSig Spec.MultiDepotPD Env.MDCPDP Env.MDCPDPDefs Env.MDCPDPProofs Env.MDCPDPRefuted.
 Import ListNotations.
 Open Scope Z_scope.
 
-(* For every instance in the documented format and EVERY action list whose actions each lie in the mask of the
-   state they are taken in, up to the step at which the row first reports done: read as routes (Spec/MultiDepotPD.v:
-   a vehicle leaves its depot, serves customers, comes home to the same depot; the last return is implied), every
-   depot's vehicle drives exactly one route, every customer is served exactly once, every delivery has its pickup
-   earlier on the same route, and the number of parcels on board never exceeds the capacity of that route's vehicle. *)
+(* For every instance in the documented format (capacity with one column, as the generator emits it, or one column per
+   depot; any start depot, i.e. start_mode "order" or "random") and EVERY action list whose actions each lie in the
+   mask of the state they are taken in, up to the step at which the row first reports done: read as routes
+   (Spec/MultiDepotPD.v: a vehicle leaves its depot, serves customers, comes home to the same depot; the last return
+   is implied), every depot's vehicle drives exactly one route, every customer is served exactly once, every delivery
+   has its pickup earlier on the same route, and the number of parcels on board never exceeds the capacity of that
+   route's vehicle. *)
 Theorem C01_mdcpdp_mask_sound :
-  forall (F : mdfix) (i : md_inst) (acts : list nat),
-    md_wfb i = true -> md_good F i = true ->
-    adm (E:=MDCPDP exact F) i acts = true ->
-    (forall p q, acts = p ++ q -> q <> [] -> done (MDCPDP exact F) i (run (E:=MDCPDP exact F) i p) = false) ->
-    done (MDCPDP exact F) i (run (E:=MDCPDP exact F) i acts) = true ->
-    md_feasibleb (ndep i) (nloc i / 2) (vcap i) acts = true.
-Proof. intros F i acts Hwf Hg. exact (md_mask_sound F i Hwf Hg acts). Qed.
-Print Assumptions C01_mdcpdp_mask_sound.
-
-(* the code after the repairs: every instance *)
-Theorem C01_mdcpdp_mask_sound_repaired :
   forall (i : md_inst) (acts : list nat),
     md_wfb i = true ->
     adm (E:=MDCPDP exact repaired) i acts = true ->
@@ -32,58 +24,73 @@ Theorem C01_mdcpdp_mask_sound_repaired :
     done (MDCPDP exact repaired) i (run (E:=MDCPDP exact repaired) i acts) = true ->
     md_feasibleb (ndep i) (nloc i / 2) (vcap i) acts = true.
 Proof. intros i acts Hwf. exact (md_mask_sound repaired i Hwf (repaired_good i) acts). Qed.
-Print Assumptions C01_mdcpdp_mask_sound_repaired.
+Print Assumptions C01_mdcpdp_mask_sound.
 
-(* the code as it is: single-depot instances (one capacity column, start_mode = "order") *)
-Theorem C01_mdcpdp_mask_sound_as_is_single_depot :
-  forall (i : md_inst) (acts : list nat),
-    md_wfb i = true -> ndep i = 1%nat -> length (caps i) = 1%nat -> start i = 0%nat ->
-    adm (E:=MDCPDP exact as_is) i acts = true ->
-    (forall p q, acts = p ++ q -> q <> [] -> done (MDCPDP exact as_is) i (run (E:=MDCPDP exact as_is) i p) = false) ->
-    done (MDCPDP exact as_is) i (run (E:=MDCPDP exact as_is) i acts) = true ->
+(* start_mode = "random" has no effect beyond the value of current_depot before the first step: the forced first
+   action 0 overwrites it, so admissibility is the same as with start depot 0 and from the first step on the state is
+   the same state (hence masks, done and rewards are the same) *)
+Theorem C01_mdcpdp_random_start_irrelevant :
+  forall (A : arith) (i : md_inst) (acts : list nat),
+    (0 < ndep i)%nat ->
+    adm (E:=MDCPDP A repaired) i acts = adm (E:=MDCPDP A repaired) (with_start i 0) acts /\
+    (acts <> [] -> adm (E:=MDCPDP A repaired) i acts = true ->
+     run (E:=MDCPDP A repaired) i acts = run (E:=MDCPDP A repaired) (with_start i 0) acts).
+Proof. intros A i acts H. apply md_random_start_irrelevant; [reflexivity | exact H]. Qed.
+Print Assumptions C01_mdcpdp_random_start_irrelevant.
+
+(* the same statement for ANY subset F of the repairs under the hypothesis that excludes the two mask-relevant defects
+   ([md_good F i]: the depot count the code uses is the true one and its current depot follows the vehicle; for the
+   unrepaired code this means: a single depot) *)
+Theorem C01_mdcpdp_mask_sound_any_repair_set :
+  forall (F : mdfix) (i : md_inst) (acts : list nat),
+    md_wfb i = true -> md_good F i = true ->
+    adm (E:=MDCPDP exact F) i acts = true ->
+    (forall p q, acts = p ++ q -> q <> [] -> done (MDCPDP exact F) i (run (E:=MDCPDP exact F) i p) = false) ->
+    done (MDCPDP exact F) i (run (E:=MDCPDP exact F) i acts) = true ->
     md_feasibleb (ndep i) (nloc i / 2) (vcap i) acts = true.
-Proof. intros i acts Hwf H1 H2 H3. apply (md_mask_sound as_is i Hwf). apply as_is_good. auto. Qed.
-Print Assumptions C01_mdcpdp_mask_sound_as_is_single_depot.
+Proof. intros F i acts Hwf Hg. exact (md_mask_sound F i Hwf Hg acts). Qed.
+Print Assumptions C01_mdcpdp_mask_sound_any_repair_set.
 
-(* the code as it is, generator format (capacity [B,1]) with two depots: an admitted, finished episode that drives
-   through depot 1 in the middle of vehicle 0's route (pickup 4 before it, its delivery 7 after it) *)
+(* ---------------------------------------------------------------- HISTORY: the code before the repairs ([as_is]) *)
+(* generator format (capacity [B,1]) with two depots: an admitted, finished episode drove through depot 1 in the middle
+   of vehicle 0's route (pickup 4 before it, its delivery 7 after it) *)
 Theorem C01_mdcpdp_refuted_depot_count_from_capacity_columns :
   exists i acts, md_wfb i = true /\ md_solvableb i = true /\ adm (E:=MDCPDP exact as_is) i acts = true /\ live as_is i acts /\
                  done (MDCPDP exact as_is) i (run (E:=MDCPDP exact as_is) i acts) = true /\ spec_feasibleb i acts = false.
 Proof. exact md_mask_sound_refuted_depot_count. Qed.
 Print Assumptions C01_mdcpdp_refuted_depot_count_from_capacity_columns.
 
-(* the code as it is, one capacity column per depot: vehicle 1 loaded beyond its capacity (the start depot's is used) *)
+(* one capacity column per depot: vehicle 1 loaded beyond its capacity (the start depot's was used) *)
 Theorem C01_mdcpdp_refuted_capacity_of_start_depot :
   exists i acts, md_wfb i = true /\ md_solvableb i = true /\ length (caps i) = ndep i /\ adm (E:=MDCPDP exact as_is) i acts = true /\
                  live as_is i acts /\ done (MDCPDP exact as_is) i (run (E:=MDCPDP exact as_is) i acts) = true /\ spec_feasibleb i acts = false.
 Proof. exact md_mask_sound_refuted_capacity_of_start_depot. Qed.
 Print Assumptions C01_mdcpdp_refuted_capacity_of_start_depot.
 
-(* ... and vehicle 1 sent "home" to depot 0: the action list is not a set of depot-to-same-depot routes at all *)
+(* ... and vehicle 1 sent "home" to depot 0: the action list was not a set of depot-to-same-depot routes at all *)
 Theorem C01_mdcpdp_refuted_wrong_home_depot :
   exists i acts, md_wfb i = true /\ md_solvableb i = true /\ length (caps i) = ndep i /\ adm (E:=MDCPDP exact as_is) i acts = true /\
                  live as_is i acts /\ done (MDCPDP exact as_is) i (run (E:=MDCPDP exact as_is) i acts) = true /\ parse (ndep i) acts = None.
 Proof. exact md_mask_sound_refuted_wrong_home_depot. Qed.
 Print Assumptions C01_mdcpdp_refuted_wrong_home_depot.
 
-(* start_mode = "random", one capacity column per depot: the first vehicle leaves depot 0 but is booked on depot r *)
+(* start_mode = "random", one capacity column per depot: the first vehicle left depot 0 but was booked on depot r *)
 Theorem C01_mdcpdp_refuted_random_start :
   exists i acts, md_wfb i = true /\ md_solvableb i = true /\ length (caps i) = ndep i /\ adm (E:=MDCPDP exact as_is) i acts = true /\
                  live as_is i acts /\ done (MDCPDP exact as_is) i (run (E:=MDCPDP exact as_is) i acts) = true /\ spec_feasibleb i acts = false.
 Proof. exact md_mask_sound_refuted_random_start. Qed.
 Print Assumptions C01_mdcpdp_refuted_random_start.
 
-(* non-vacuity: two depots with capacities 2 and 1, two pairs; the repaired code admits this finished episode *)
+(* non-vacuity: generator format (ONE capacity column) with two depots, random start depot 1; the current code admits this
+   finished episode, and it is feasible *)
 Example C01_mdcpdp_nonvacuous :
-  let i := inst 2 4 [2; 1] (unit_dist 6) 0 in
+  let i := with_start (inst 2 4 [2] (unit_dist 6) 0) 1 in
   let acts := [0; 2; 3; 4; 5; 0; 1]%nat in
   md_wfb i = true /\ adm (E:=MDCPDP exact repaired) i acts = true /\ liveb repaired i acts = true /\
   done (MDCPDP exact repaired) i (run (E:=MDCPDP exact repaired) i acts) = true /\ spec_feasibleb i acts = true.
 Proof. vm_compute. repeat split; reflexivity. Qed.
-Example C01_mdcpdp_nonvacuous_as_is :
-  let i := inst 1 4 [1] (unit_dist 5) 0 in
-  let acts := [0; 1; 3; 2; 4]%nat in
-  md_wfb i = true /\ md_good as_is i = true /\ adm (E:=MDCPDP exact as_is) i acts = true /\ liveb as_is i acts = true /\
-  done (MDCPDP exact as_is) i (run (E:=MDCPDP exact as_is) i acts) = true /\ spec_feasibleb i acts = true.
+(* the old witnesses are no longer admitted by the current code *)
+Example C01_mdcpdp_old_witnesses_rejected :
+  adm (E:=MDCPDP exact repaired) w_nd w_nd_acts = false /\ adm (E:=MDCPDP exact repaired) w_sw w_sw_acts = false /\
+  adm (E:=MDCPDP exact repaired) w_sw3 w_sw3_acts = false.
 Proof. vm_compute. repeat split; reflexivity. Qed.
